@@ -186,6 +186,7 @@ def gen_history(seed, tier, classes=None, weights=None, n_ops=(6, 16),
                          fresh_restarts=1 if r.random() < fresh_p else 0))
   ops = plan["ops"]
   syms = []
+  store_dks = set()
   shared_params = {}
 
   def new_handle():
@@ -214,8 +215,14 @@ def gen_history(seed, tier, classes=None, weights=None, n_ops=(6, 16),
       pre = "ndarray"
     hid = len(syms)
     op = dict(op="new", h=hid, cls=name, params=p)
+    if dk in store_dks and r.random() < 0.4:
+      pre = "store"
     if pre:
       op.update(pre=pre, pre_data=dk)
+      if pre == "store":
+        if dk in store_dks and r.random() < 0.7:
+          op["share_store"] = True     # the same callable object as an earlier estimator on this dataset
+        store_dks.add(dk)
     ops.append(op)
     s = Sym(hid, name, dk, pre)
     s.params = dict(p)
